@@ -24,7 +24,9 @@ Definition run_covered (ps : N) (d : list bool) (run : N * N) : bool :=
   if n =? 0 then true else
   forallb (fun k => nthb d (o / ps + N.of_nat k)) (seq 0 (N.to_nat ((o + n - 1) / ps - o / ps + 1))).
 
-Inductive skind := KWriteLike | KFdError | KReset.   (* what sort of step it was (from the case, not the model) *)
+(* what sort of step it was (from the case, not the model); KFdError cnt: a descriptor read asked for
+   cnt bytes that (may have) failed *)
+Inductive skind := KWriteLike | KFdError (cnt : N) | KReset.
 
 Definition indices (l : list bool) : list N := map N.of_nat (seq 0 (length l)).
 
@@ -38,15 +40,28 @@ Definition ok_C05_region (k : skind) (g : rgeom) (before after : list bool) (run
          forallb (fun p => implb (nthb before p) (nthb after p)) (indices before)
   end.
 
+(* pages that are dirty after the step and were not before *)
+Definition new_pages (before after : list bool) : list N :=
+  filter (fun p => nthb after p && negb (nthb before p)) (indices after).
+(* the pages lie within one window that a target of at most cnt > 0 bytes can overlap: a range of m bytes
+   overlaps at most (m + ps - 2) / ps + 1 consecutive pages *)
+Definition span_ok (ps cnt : N) (l : list N) : bool :=
+  match l with
+  | [] => true
+  | p0 :: _ => (0 <? cnt) && (last l p0 - p0 <=? (cnt + ps - 2) / ps)
+  end.
+
 (* C16 for one step and one region: a page is newly dirty only if a byte on it was written
-   (exception: a failed descriptor read may mark its whole target); pages beyond the region's page
-   count never read dirty *)
+   (exception: a failed descriptor read may mark its whole target - written or not - but no more than
+   a target: the newly dirty pages fit one window of the cnt bytes the call asked for); pages beyond
+   the region's page count never read dirty *)
 Definition ok_C16_region (k : skind) (g : rgeom) (before after : list bool) (runs : list (N * N)) : bool :=
   if negb (g_tracked g) then forallb negb after else
   let np := div_ceil (g_size g) (g_ps g) in
   forallb (fun p => implb (np <=? p) (negb (nthb after p))) (indices after) &&
   match k with
-  | KReset | KFdError => true
+  | KReset => true
+  | KFdError cnt => span_ok (g_ps g) cnt (new_pages before after)
   | KWriteLike =>
       forallb (fun p => implb (nthb after p && negb (nthb before p)) (page_touched (g_ps g) runs p)) (indices after)
   end.
